@@ -115,6 +115,35 @@ def coq_build(targets, timeout=2400):
         return time.time() - t0
 
 
+def coqchk_all(timeout=4 * 3600):
+    """coqchk -o over every Properties module (hence the whole development); cached by the content hash of all .v files."""
+    h = hashlib.sha256()
+    for f in sorted(glob.glob(os.path.join(COQ, "theories", "**", "*.v"), recursive=True)):
+        h.update(f.encode()); h.update(open(f, "rb").read())
+    key = h.hexdigest()
+    stamp = os.path.join(CACHE, "coqchk.json")
+    if os.path.exists(stamp):
+        st = json.load(open(stamp))
+        if st.get("hash") == key and st.get("ok"):
+            return f"coqchk -o on this exact development (cached verdict, the run took {st.get('seconds')} s): Axioms: <none>; no type-in-type, unsafe fixpoints or assumed positivity"
+    with Lock("coqchk"):
+        coq_build([])
+        mods = ["SFV.Properties." + os.path.basename(f)[:-2] for f in sorted(glob.glob(os.path.join(COQ, "theories", "Properties", "*.v")))]
+        t0 = time.time()
+        rc, out = sh(["coqchk", "-o", "-silent", "-Q", "theories", "SFV"] + mods, cwd=COQ, timeout=timeout)
+        if rc != 0:
+            raise Failure("broken_obligation", "coqchk rejects the compiled development (or did not finish)", out[-3000:])
+        m = re.search(r"\* Axioms:(.*?)\n\s*\n", out + "\n\n", re.S)
+        ax = " ".join((m.group(1) if m else "?").split())
+        flat = " ".join(out.split())
+        bad = [k for k in ("type-in-type: <none>", "unsafe (co)fixpoints: <none>", "positivity is assumed: <none>") if k not in flat]
+        if ax != "<none>" or bad:
+            raise Failure("broken_obligation", f"coqchk reports axioms or disabled checks: axioms={ax} {bad}", out[-3000:])
+        secs = round(time.time() - t0)
+        json.dump({"hash": key, "ok": True, "seconds": secs, "modules": mods}, open(stamp, "w"))
+        return f"coqchk -o on the whole development ({len(mods)} property modules and everything they depend on, {secs} s): Axioms: <none>; no type-in-type, unsafe fixpoints or assumed positivity"
+
+
 def pins_output(prop):
     pin = os.path.join(COQ, "pins", prop + ".v")
     outdir = os.path.join(CACHE, "pins")
